@@ -1,0 +1,47 @@
+//go:build verif
+
+package rtsp
+
+import (
+	"bufio"
+
+	"github.com/cnotch/xlog"
+)
+
+// VerifHandler adapts three callbacks to the unexported receiveHandler
+// interface so that a verification harness outside this package can observe
+// what the dispatcher hands to a session. A nil callback accepts the item.
+type VerifHandler struct {
+	OnRequest  func(req *Request) error
+	OnResponse func(resp *Response) error
+	OnPack     func(pack *RTPPack) error
+}
+
+func (h VerifHandler) onRequest(req *Request) error {
+	if h.OnRequest == nil {
+		return nil
+	}
+	return h.OnRequest(req)
+}
+
+func (h VerifHandler) onResponse(resp *Response) error {
+	if h.OnResponse == nil {
+		return nil
+	}
+	return h.OnResponse(resp)
+}
+
+func (h VerifHandler) onPack(pack *RTPPack) error {
+	if h.OnPack == nil {
+		return nil
+	}
+	return h.OnPack(pack)
+}
+
+var verifNopLogger = xlog.New(xlog.NewNopCore())
+
+// VerifReceive runs the session dispatcher (receive) once on r with a silent
+// logger, exactly as Session.process and PullClient.playStream call it.
+func VerifReceive(r *bufio.Reader, channels []int, h VerifHandler) error {
+	return receive(verifNopLogger, r, channels, h)
+}
